@@ -6,7 +6,7 @@
    on every run).  Outcomes: DOk / DErr / DPanic (todo!, index, over-wide shift) / DUnbounded
    (a loop whose length is not bounded by the input).  The float conversions of the host are
    parameters; nothing here depends on them. *)
-From PV Require Import Base MachineInt VarintParams GenLoops Varint DataModel Schema SchemaConv Dyn JsonOf WireFormat VarintFacts DynFacts DynReenc DynSizeDefs DynSize DynArmDecl GenDynArms DynArms DynCompositeExpected GenDynComposite GenDynHelpers DynArmFacts DynArmTotal.
+From PV Require Import Base MachineInt VarintParams GenLoops Varint DataModel Schema SchemaConv Dyn JsonOf WireFormat VarintFacts DynFacts DynReenc DynSizeDefs DynSize DynSerMin DynArmDecl GenDynArms DynArms DynCompositeExpected GenDynComposite GenDynHelpers DynArmFacts DynArmTotal.
 Open Scope N_scope.
 
 (* decoding never panics, whatever the schema, whatever the bytes; what it hands on to the
@@ -129,6 +129,13 @@ Example C18_allocation_bounded_example :
   dno_zero (SSeq (SPrim PUnit)) = false.
 Proof. repeat split; vm_compute; reflexivity. Qed.
 
+(* ... and the encoder never produces fewer bytes under a schema than the least a successful decode
+   under that schema consumes (dmin s): every element of a sequence whose element schema has
+   dmin >= 1 occupies at least one byte of the encoder's output, for every JSON value accepted *)
+Theorem C18_encoder_output_at_least_min : forall int_to_f64 narrow s j bs,
+  dyn_ser int_to_f64 narrow s j = DOk bs -> dmin s <= N.of_nat (length bs).
+Proof. exact ser_min. Qed.
+
 Print Assumptions C18_decode_total.
 Print Assumptions C18_encode_total.
 Print Assumptions C18_private_reader.
@@ -139,3 +146,4 @@ Print Assumptions C18_decoder_arms_are_the_model.
 Print Assumptions C18_composite_arms_are_the_source.
 Print Assumptions C18_helpers_are_the_source.
 Print Assumptions C18_allocation_bounded.
+Print Assumptions C18_encoder_output_at_least_min.
